@@ -619,6 +619,7 @@ impl AssemblyCode {
                                     y_register = None;
                                 }
                             }
+                            flags = FlagsState::Unknown;
                         }
                         AsmMnemonic::INX | AsmMnemonic::DEX => {
                             if let Some(v) = &accumulator {
@@ -632,6 +633,7 @@ impl AssemblyCode {
                                 }
                             }
                             x_register = None;
+                            flags = FlagsState::Unknown;
                         }
                         AsmMnemonic::INY | AsmMnemonic::DEY => {
                             if let Some(v) = &accumulator {
@@ -645,6 +647,7 @@ impl AssemblyCode {
                                 }
                             }
                             y_register = None;
+                            flags = FlagsState::Unknown;
                         }
                         AsmMnemonic::TAX => {
                             x_register = accumulator.clone();
@@ -702,7 +705,21 @@ impl AssemblyCode {
                         | AsmMnemonic::EOR
                         | AsmMnemonic::AND
                         | AsmMnemonic::ORA => accumulator = None,
-                        AsmMnemonic::LSR | AsmMnemonic::ASL => accumulator = None,
+                        AsmMnemonic::LSR | AsmMnemonic::ASL | AsmMnemonic::ROL | AsmMnemonic::ROR => {
+                            // Shift of the accumulator, or of a memory cell that a register may be known to hold
+                            accumulator = None;
+                            if let Some(v) = &x_register {
+                                if v.eq(&inst.dasm_operand) {
+                                    x_register = None;
+                                }
+                            }
+                            if let Some(v) = &y_register {
+                                if v.eq(&inst.dasm_operand) {
+                                    y_register = None;
+                                }
+                            }
+                            flags = FlagsState::Unknown;
+                        }
                         AsmMnemonic::PLA | AsmMnemonic::PHA => accumulator = None,
                         AsmMnemonic::JSR | AsmMnemonic::JMP => {
                             accumulator = None;
